@@ -27,6 +27,7 @@ func H_C08_Reopen() {
 	}
 	// pre > 0: that many concrete one-record transactions first (two-digit file ids with SegmentSize 60)
 	pre := preTxs(vParam("pre"), mode == HintKeyValAndRAMIdxMode)
+	vConcreteArgs, vArgCounter = len(pre) > 0, 0 // many-segment configurations: concrete keys, the file order is the subject
 	runTxs(db, pre)
 	txs := genTxs(vParam("profile"), vParam("ntx"), vParam("maxops"))
 	for _, e := range runTxs(db, txs) {
